@@ -29,6 +29,9 @@ class RecordingModel(torch.nn.Module):
         self.trailing = [list(t) for t in (trailing or [[]])]
         self.calls = []
         self.ignore_first = ignore_first
+        # a child whose mode can differ from the parent's: in training mode (parent or child) the outputs are not
+        # row-wise any more (like BatchNorm with batch statistics) - observable when a function forgets eval()
+        self.probe = torch.nn.Identity()
 
     def compute(self, X, args):
         N = X.shape[0]
@@ -54,10 +57,17 @@ class RecordingModel(torch.nn.Module):
 
     def forward(self, X, *args):
         self.calls.append((self.training, torch.is_grad_enabled(), int(X.shape[0])))
-        return self.compute(X, args)
+        out = self.compute(X, args)
+        if self.training or self.probe.training:
+            leak = 3 * X.to(torch.float64).sum() + 5 * X.shape[0]      # depends on the whole batch
+            if isinstance(out, torch.Tensor):
+                return out + leak
+            return type(out)(o + leak for o in out)
+        return out
 
     def to_json(self):
-        return {'__factory__': 'recording_model', 'name': self.name, 'k': self.k, 'tuple_kind': self.tuple_kind, 'trailing': self.trailing}
+        return {'__factory__': 'recording_model', 'name': self.name, 'k': self.k, 'tuple_kind': self.tuple_kind, 'trailing': self.trailing,
+                'training': bool(self.training), 'probe_training': bool(self.probe.training)}
 
 
 class RecordingFunc:
@@ -82,8 +92,15 @@ class RecordingFunc:
         return d
 
 
+def _recording_model(d):
+    m = RecordingModel(d['name'], d['k'], d['tuple_kind'], d['trailing'])
+    m.train(bool(d.get('training', True)))
+    m.probe.train(bool(d.get('probe_training', d.get('training', True))))
+    return m
+
+
 FACTORIES = {
-    'recording_model': lambda d: RecordingModel(d['name'], d['k'], d['tuple_kind'], d['trailing']),
+    'recording_model': lambda d: _recording_model(d),
     'recording_func': lambda d: RecordingFunc(d['name'], d['k'], d['tuple_kind'], d['trailing']),
 }
 
